@@ -12,10 +12,12 @@ import (
 )
 
 func (api *API) decode(ctx context.Context, b []byte, value reflect.Value, ts TypeSettings, opts *options) (int, error) {
-	if opts.decodeDepth++; opts.decodeDepth > maxDecodeDepth {
-		return 0, ierrors.Errorf("exceeded the maximum nesting depth of %d", maxDecodeDepth)
+	if countsAsNestingLevel(value.Type()) {
+		if opts.decodeDepth++; opts.decodeDepth > maxDecodeDepth {
+			return 0, ierrors.Errorf("exceeded the maximum nesting depth of %d", maxDecodeDepth)
+		}
+		defer func() { opts.decodeDepth-- }()
 	}
-	defer func() { opts.decodeDepth-- }()
 
 	valueType := value.Type()
 	var deserializable Deserializable
